@@ -28,7 +28,7 @@ SPG = "<optimizer::SimplePatternGroup as optimizer::Optimization>::"
 
 
 def check(run):
-    for cfg in ("A", "B"):
+    for cfg in run.cfgs("A", "B"):
         F = run.facts(cfg)
         run.guard("C05.1.fusion-key", cfg, lambda: rule_key(run, F, cfg))
         run.guard("C05.2.bucket-preservation", cfg, lambda: rule_bucket(run, F, cfg))
